@@ -9,6 +9,7 @@
 import GLua.Engines.Common
 import GLua.Model.CallFrame
 import GLua.Spec.Adjust
+import GLua.Engines.CallCompileEng
 
 namespace GLua.Eng.CallEng
 open GLua GLua.Eng GLua.CallFrame GLua.Adjust
@@ -287,6 +288,7 @@ def handle (st : EState) (ws : List String) : EState × Verdict :=
     -- every registry request ends with `=> <top> <slot>*N` (for pop/get preceded by the value)
     ({ reg := r }, { model := cmpModel (showReg r (impl.length - 1)) impl })
   match lhs with
+  | "cc" :: rest => (st, CallCompileEng.handleCC rest impl)
   | "step" :: rest =>
     let (params, pre) := splitBar rest
     (st, handleStep params pre impl)
